@@ -160,3 +160,13 @@ Example C03_listeners_nonvacuous :
   [LSeen 0 PAUSED QUEUED; LSeen 1 PAUSED QUEUED; LSeen 2 PAUSED QUEUED; LRet 0 true;
    LSeen 0 QUEUED INITIALIZING; LSeen 1 QUEUED INITIALIZING; LSeen 2 QUEUED INITIALIZING; LRet 1 true].
 Proof. vm_compute. reflexivity. Qed.
+
+(* the scenario of the seeded change C03-r3m1: the abort holds the lock while the transfer task winds down, a pause
+   that waits for the lock is cancelled (wait_for timeout), a fail() arrives: it must wait and is then refused *)
+Example C03_cancelled_waiter_nonvacuous :
+  let t := mkT DOWNLOADING Download None None false None (Some 10%N) 4%N 0%N 0%N true false true true TNone TLive in
+  snd (run redispatch_after_lock (idle t)
+         [Capture f01_abort; Start 0; Capture f01_pause; Start 1; Cancel 1; Capture (mkCall OFail (Some 4%N) false); Start 2;
+          Step; Step; Step; Wake]) =
+  [OCancelled 1; OEdge DOWNLOADING ABORTED; ORet 0 true; ORet 2 false].
+Proof. vm_compute. reflexivity. Qed.
